@@ -712,7 +712,7 @@ pub fn check_file_fault(fc: &FLCase, st: &mut Stats) -> CheckResult {
             return v(format!("{what}: the client was answered {} but the state is not the request's after-state: now {now:?}, after {after:?}", out.short()));
         }
         st.label(&format!("c05f:{:?}:{}:{}", injected[0].0, fc.target.kind(), if out.is_error() { "error" } else { "absorbed" }));
-        if after != before && matches!(injected[0].0, Kind::Write | Kind::Sync | Kind::Truncate | Kind::Delete | Kind::Open | Kind::Lock) {
+        if after != before && matches!(injected[0].0, Kind::Write | Kind::Sync | Kind::Truncate | Kind::Delete | Kind::Open | Kind::Lock | Kind::Statement) {
             st.nontrivial(&("c05f", fc.via, fc.target.kind(), injected[0].0, injected[0].1, injected[0].2.clone(), out.is_error(), fc.plan.short, fc.plan.full));
         }
         // model follows what is stored
@@ -780,7 +780,7 @@ pub fn check_file_fault(fc: &FLCase, st: &mut Stats) -> CheckResult {
 
 fn plan() -> impl Strategy<Value = Plan> {
     (
-        prop_oneof![3 => Just(Kind::Write), 3 => Just(Kind::Sync), 2 => Just(Kind::Read), 1 => Just(Kind::Truncate), 2 => Just(Kind::Open), 1 => Just(Kind::Delete), 2 => Just(Kind::Lock), 1 => Just(Kind::ShmMap)],
+        prop_oneof![3 => Just(Kind::Write), 3 => Just(Kind::Sync), 2 => Just(Kind::Read), 1 => Just(Kind::Truncate), 2 => Just(Kind::Open), 1 => Just(Kind::Delete), 2 => Just(Kind::Lock), 1 => Just(Kind::ShmMap), 2 => Just(Kind::Statement)],
         prop_oneof![4 => 0u32..4, 2 => 0u32..12, 1 => 0u32..60],
         any::<bool>(),
         prop::bool::weighted(0.3),
@@ -828,6 +828,7 @@ fn file_fault_grid() -> Vec<FLCase> {
                     Kind::Write => 10,
                     Kind::Read => 8,
                     Kind::Sync | Kind::Lock | Kind::Open => 5,
+                    Kind::Statement => 48,
                     _ => 3,
                 };
                 for nth in 0..n {
